@@ -137,6 +137,9 @@ type Stmt struct {
 	Op      string   `json:"op,omitempty"`
 	Idx     int      `json:"idx,omitempty"`
 	LoopIdx string   `json:"loopidx,omitempty"` // index is this loop variable instead of Idx
+	// Idx2 (SSetIndex on an array of arrays): Name[Idx][Idx2-1] = E when
+	// Idx2 > 0.
+	Idx2 int `json:"idx2,omitempty"`
 	Field   string   `json:"field,omitempty"`
 	Fn      string   `json:"fn,omitempty"`
 	E       *Expr    `json:"e,omitempty"`
@@ -309,7 +312,11 @@ func printStmt(sb *strings.Builder, s *Stmt, lvl int) {
 	case SOpAssign:
 		fmt.Fprintf(sb, "%s %s= %s\n", s.Name, s.Op, s.E)
 	case SSetIndex:
-		fmt.Fprintf(sb, "%s[%s] = %s\n", s.Name, idxText(s), s.E)
+		if s.Idx2 > 0 {
+			fmt.Fprintf(sb, "%s[%s][%d] = %s\n", s.Name, idxText(s), s.Idx2-1, s.E)
+		} else {
+			fmt.Fprintf(sb, "%s[%s] = %s\n", s.Name, idxText(s), s.E)
+		}
 	case SSetField:
 		fmt.Fprintf(sb, "%s.%s = %s\n", s.Name, s.Field, s.E)
 	case SIf:
